@@ -21,6 +21,7 @@ ESRange(e) == InRange(e.obs.es[1]) /\ InRange(e.obs.es[2])
 ESExchange(e) == e.lag = 0 => /\ Close(e.obs.es_sw[1], e.obs.es[2], Tol)
                               /\ Close(e.obs.es_sw[2], e.obs.es[1], Tol)
 ESShift(e) == CloseSeq(e.obs.es_shift, e.obs.es, Tol)
+ESBigShift(e) == e.obs.es_bigshift_exc = "" /\ CloseSeq(e.obs.es_bigshift, e.obs.es, Tol)
 ESScale(e) == e.tm = INF => CloseSeq(e.obs.es_scale, e.obs.es, Tol)
 HasECA(e) == e.tm # INF
 ECAAppl(e) == HasECA(e) => (e.obs.eca_exc = "" /\ e.obs.eca_sw_exc = "" /\ e.obs.eca_shift_exc = "")
@@ -40,6 +41,9 @@ ECAExchange(e) == HasECA(e) =>
 ECAShift(e) == HasECA(e) =>
    LET d == ECA(Ex(e), Ey(e), e.tm, e.lag)
    IN \A k \in 1..4 : d[k][2] # 0 => Close(e.obs.eca_shift[k], e.obs.eca[k], Tol)
+ECABigShift(e) == HasECA(e) =>
+   LET d == ECA(Ex(e), Ey(e), e.tm, e.lag)
+   IN e.obs.eca_bigshift_exc = "" /\ \A k \in 1..4 : d[k][2] # 0 => Close(e.obs.eca_bigshift[k], e.obs.eca[k], Tol)
 
 PairTags(e) == "pair"
    \o (IF SumSeq(e.x) = 0 \/ SumSeq(e.y) = 0 THEN ",event_free" ELSE "")
@@ -54,11 +58,13 @@ PairVerdict(e) ==
   ELSE IF ~ESRange(e) THEN R("Range01", "event_synchronization")
   ELSE IF ~ESExchange(e) THEN R("Exchange", "event_synchronization")
   ELSE IF ~ESShift(e) THEN R("ShiftInv", "event_synchronization")
+  ELSE IF ~ESBigShift(e) THEN R("ShiftInv", "event_synchronization(2^25)")
   ELSE IF ~ESScale(e) THEN R("ScaleInv", "event_synchronization")
   ELSE IF ~ECADef(e) THEN R("ECADef", "event_coincidence_analysis")
   ELSE IF ~ECARange(e) THEN R("Range01", "event_coincidence_analysis")
   ELSE IF ~ECAExchange(e) THEN R("Exchange", "event_coincidence_analysis")
   ELSE IF ~ECAShift(e) THEN R("ShiftInv", "event_coincidence_analysis")
+  ELSE IF ~ECABigShift(e) THEN R("ShiftInv", "event_coincidence_analysis(2^25)")
   ELSE <<"ACCEPT", "", "", PairTags(e)>>
 
 \* ---- matrix ------------------------------------------------------------------------
@@ -91,9 +97,11 @@ MatRange(e) == /\ \A a \in 1..3 : \A b \in 1..3 : InRange(e.obs.es.directed[a][b
 \* EventSeriesClimateNetwork (unit time steps): similarity = directed ES matrix, links = positive scores
 MatESCN(e) == e.obs.escn # <<>> =>
    /\ CloseMat(e.obs.escn, ESDirected(e), Tol)
-   /\ e.obs.escn_adj = [a \in 1..3 |-> [b \in 1..3 |-> IF a # b /\ ESDirected(e)[a][b] > Tol THEN 1
-                                                        ELSE IF a # b /\ ESDirected(e)[a][b] > 0 THEN e.obs.escn_adj[a][b]
-                                                        ELSE 0]]
+   \* (an undefined score - a series without events - is not a positive score)
+   /\ e.obs.escn_adj = [a \in 1..3 |-> [b \in 1..3 |->
+         IF a # b /\ IsNum(ESDirected(e)[a][b]) /\ ESDirected(e)[a][b] > Tol THEN 1
+         ELSE IF a # b /\ IsNum(ESDirected(e)[a][b]) /\ ESDirected(e)[a][b] > 0 THEN e.obs.escn_adj[a][b]
+         ELSE 0]]
 MatTags(e) == "mat" \o (IF e.tm = INF THEN ",unbounded" ELSE "") \o (IF e.lag # 0 THEN ",lag" ELSE "")
 MatVerdict(e) ==
   LET R(c, s) == <<"REJECT", c, s, MatTags(e)>> IN
@@ -111,7 +119,7 @@ ThrDef(e) ==
   LET thrq == IF e.method = "value" THEN e.qa ELSE QuantileTimes(e.col, e.qa, e.qb)
   IN \A k \in 1..Len(e.col) :
        e.obs.ev[k] = (IF Beyond(e.col[k], thrq, e.qb, e.type) THEN 1 ELSE 0)
-ThrTags(e) == "thr," \o e.method \o "," \o e.type
+ThrTags(e) == "thr," \o e.method \o "," \o e.type \o (IF e.dv = 1 THEN ",default_value" ELSE "") \o (IF e.dt = 1 THEN ",default_type" ELSE "")
 \* a value threshold outside the range of the data is documented to be refused
 OutOfRange(e) == /\ e.method = "value"
                  /\ \/ \A k \in 1..Len(e.col) : e.col[k] * e.qb < e.qa
